@@ -150,7 +150,7 @@ SC_BOUNDS, SC_VALUES = [2, 3, 5], [1, 0, 2]
 
 
 @config
-def SC(pre=False, offset=0.0, first=None, burst=None, blocked=False, prio=False, values=None, bounds=None, symoff=False):
+def SC(pre=False, offset=0.0, first=None, burst=None, blocked=False, prio=False, values=None, bounds=None, symoff=False, discipline=None, c2=1):
     values = values or SC_VALUES
     bounds = bounds or SC_BOUNDS
     off = offset
@@ -168,7 +168,7 @@ def SC(pre=False, offset=0.0, first=None, burst=None, blocked=False, prio=False,
         else:
             kw["routing"] = [[0.0, 1.0], [0.0, 0.0]]
         net = ciw.create_network(arrival_distributions=[arr("a", True, burst), None], service_distributions=[D("s1"), D("s2")],
-                                 number_of_servers=[mk(), 1], queue_capacities=[INF, 0],
+                                 number_of_servers=[mk(), c2], queue_capacities=[INF, 0],
                                  batching_distributions=[batches(first), batches(None)], **kw)
         return Cfg(net, flags)
     if prio:
@@ -185,7 +185,7 @@ def SC(pre=False, offset=0.0, first=None, burst=None, blocked=False, prio=False,
         flags["routing"] = {"Customer": ("nodes", [("leave",), ("leave",)])}
         return Cfg(net, flags)
     net = ciw.create_network(arrival_distributions=[arr("a", True, burst)], service_distributions=[D("s")], number_of_servers=[mk()],
-                             batching_distributions=[batches(first)])
+                             batching_distributions=[batches(first)], service_disciplines=[disc(discipline)])
     return Cfg(net, flags)
 
 
@@ -193,12 +193,15 @@ SL_SLOTS, SL_SIZES = [1.5, 2.5, 4.0], [1, 2, 1]
 
 
 @config
-def SL(capacitated=False, pre=False, offset=0.0, first=None, burst=None, pos=True, slots=None, sizes=None):
+def SL(capacitated=False, pre=False, offset=0.0, first=None, burst=None, pos=True, slots=None, sizes=None, reneging=False):
     slots = slots or SL_SLOTS
     sizes = sizes or SL_SIZES
     mk = lambda: ciw.Slotted(slots=list(slots), slot_sizes=list(sizes), capacitated=capacitated, preemption=pre, offset=offset)
+    kw = {}
+    if reneging:
+        kw["reneging_time_distributions"] = [D("p")]
     net = ciw.create_network(arrival_distributions=[arr("a", pos, burst)], service_distributions=[D("s")], number_of_servers=[mk()],
-                             batching_distributions=[batches(first)])
+                             batching_distributions=[batches(first)], **kw)
     tt = {1: dict(kind="slotted", slots=list(slots), sizes=list(sizes), offset=offset, capacitated=capacitated, preemption=pre)}
     return Cfg(net, {"timetable": tt})
 
@@ -213,7 +216,7 @@ class Jockey(R.Leave):
 
 
 @config
-def RN(c=1, jockey=False, prio=False, pre=False, first=None, burst=None, sched=False, blockedinto=False):
+def RN(c=1, jockey=False, prio=False, pre=False, first=None, burst=None, sched=False, blockedinto=False, syscap=None, cap_=None):
     if blockedinto:
         # node1 -> node2 (c=1, cap 1, reneging at node 2): a renege at node 2 frees a place for a customer blocked at node 1
         net = ciw.create_network(arrival_distributions=[arr("a1", True, burst), arr("a2", True, burst)],
@@ -238,8 +241,13 @@ def RN(c=1, jockey=False, prio=False, pre=False, first=None, burst=None, sched=F
     if sched:
         ns = ciw.Schedule(numbers_of_servers=list(SC_VALUES), shift_end_dates=list(SC_BOUNDS), preemption=False)
         flags["timetable"] = {1: dict(kind="schedule", bounds=list(SC_BOUNDS), values=list(SC_VALUES), offset=0.0, preemption=False)}
+    kw = {}
+    if syscap is not None:
+        kw["system_capacity"] = syscap
+    if cap_ is not None:
+        kw["queue_capacities"] = [cap_]
     net = ciw.create_network(arrival_distributions=[arr("a", True, burst)], service_distributions=[D("s")], number_of_servers=[ns],
-                             reneging_time_distributions=[D("p")], batching_distributions=[batches(first)])
+                             reneging_time_distributions=[D("p")], batching_distributions=[batches(first)], **kw)
     return Cfg(net, flags)
 
 
@@ -389,12 +397,12 @@ def RTM(first=None, burst=None):
 
 
 @config
-def JSQP(first=None, burst=None, tie="order"):
+def JSQP(first=None, burst=None, tie="order", pre="reroute"):
     """JSQ at node 1 over nodes 2,3; node 2 has pre-emptive priorities with reroute (finding F9)"""
     mk = lambda: R.NetworkRouting(routers=[R.JoinShortestQueue(destinations=[2, 3], tie_break=tie), R.Leave(), R.Leave()])
     net = ciw.create_network(arrival_distributions={"A": [None, arr("aA2", True, burst), None], "B": [arr("aB1", True, burst), arr("aB2", True, burst), None]},
                              service_distributions={"A": [D("sA")] * 3, "B": [D("sB")] * 3}, number_of_servers=[1, 1, 1],
-                             priority_classes=({"A": 0, "B": 1}, [False, "reroute", False]), routing={"A": mk(), "B": mk()},
+                             priority_classes=({"A": 0, "B": 1}, [False, pre, False]), routing={"A": mk(), "B": mk()},
                              batching_distributions={"A": [batches(None)] * 3, "B": [batches(None), batches(first), batches(None)]})
     spec = ("nodes", [("jsq", [2, 3], tie), ("leave",), ("leave",)])
     return Cfg(net, {"routing": {"A": spec, "B": spec}})
